@@ -17,22 +17,22 @@ import (
 
 // round5Rules: which of the rules of this file each property runs after its own.
 var round5Rules = map[string][]func(*report.Ctx){
-	"C01": {checkProxyWriteKeepsBody, checkNoServerTimeouts},
-	"C04": {checkSuspendConsumesRelease},
-	"C05": {checkTeardownEntryPointsUnconditional, checkTimeoutArmAlwaysResets, checkNoServerTimeouts},
-	"C06": {checkInitFailuresClosed, checkAppCtxMiddlewareOnRouters, checkContextClearedOnlyByReset, checkSingleEventSender, checkErrorResponseTypeVerbatim, checkBootstrapFallbackTypes, checkRuntimeLookedUpAfterSuccess},
+	"C01": {checkProxyWriteKeepsBody, checkNoServerTimeouts, checkCustomerHeadersEncoding},
+	"C04": {checkSuspendConsumesRelease, checkCountAgentsCountsBoth},
+	"C05": {checkCancelFlowsUnconditional, checkTeardownEntryPointsUnconditional, checkTimeoutArmAlwaysResets, checkNoServerTimeouts},
+	"C06": {checkCancelFlowsUnconditional, checkInitFailuresClosed, checkAppCtxMiddlewareOnRouters, checkContextClearedOnlyByReset, checkSingleEventSender, checkErrorResponseTypeVerbatim, checkBootstrapFallbackTypes, checkRuntimeLookedUpAfterSuccess},
 	"C19": {checkSingleEventSender},
-	"C15": {checkBootstrapFallbackTypes, checkLaunchErrorVerbatim},
-	"C07": {checkInitFailuresClosed, checkTeardownEntryPointsUnconditional, checkSingleEventSender, checkRuntimeLookedUpAfterSuccess},
-	"C08": {checkTeardownEntryPointsUnconditional, checkHandlerClosuresStateless},
-	"C20": {checkHandlerClosuresStateless},
-	"C09": {checkAgentReleaseUnconditional, checkSuspendConsumesRelease, checkTeardownEntryPointsUnconditional, checkDeadlineUnit, checkShutdownFuncOrder},
+	"C15": {checkBootstrapFallbackTypes, checkLaunchErrorVerbatim, checkAgentAutomataTruthful},
+	"C07": {checkCancelFlowsUnconditional, checkInitFailuresClosed, checkTeardownEntryPointsUnconditional, checkSingleEventSender, checkRuntimeLookedUpAfterSuccess},
+	"C08": {checkExitChannelAfterExec, checkTeardownEntryPointsUnconditional, checkHandlerClosuresStateless},
+	"C20": {checkHandlerClosuresStateless, checkCropOwnLength},
+	"C09": {checkAgentReleaseUnconditional, checkSuspendConsumesRelease, checkTeardownEntryPointsUnconditional, checkDeadlineUnit, checkShutdownFuncOrder, checkCountAgentsCountsBoth},
 	"C12": {checkCurrentInvokeIDTruthful, checkAppCtxMiddlewareOnRouters, checkJSONReplyBufferOwned},
 	"C02": {checkCurrentInvokeIDTruthful},
 	"C13": {checkSuspendConsumesRelease, checkExtensionsFlagOn, checkAppCtxMiddlewareOnRouters, checkJSONReplyBufferOwned, checkEmulatorInitCopy},
-	"C03": {checkExtensionsFlagOn},
+	"C03": {checkExtensionsFlagOn, checkAgentListing},
 	"C14": {checkProxyWriteKeepsBody, checkBufferedDirectOversize},
-	"C17": {checkBufferedDirectOversize, checkStreamingModeOverride, checkBucketAcceptsValidCombinations, checkMetricsNeverNil, checkRefillAlwaysAnnounced},
+	"C17": {checkCustomerHeadersEncoding, checkBufferedDirectOversize, checkStreamingModeOverride, checkBucketAcceptsValidCombinations, checkMetricsNeverNil, checkRefillAlwaysAnnounced},
 	"C16": {checkEmulatorInitCopy, checkSplitEnvVerbatim},
 	"C18": {checkUpdateCredentialsApplied, checkInitTypeBeforeServer},
 }
@@ -1240,4 +1240,226 @@ func checkRefillAlwaysAnnounced(c *report.Ctx) {
 		}
 	}
 	c.Check("R-ORDER", an.FuncName(g)+"/refill-always-announced", "after every refill the loop offers a (non-blocking) wake-up on the produced channel before it waits for the next tick: a writer that missed the tokens of this tick is woken by the next one, so the copy always terminates", !leak, an.InstrPos(prod), 1, "the next wait or a return is reachable after produceTokens without the offer: %v", leak)
+}
+
+// checkCropOwnLength: each trace list of an error cause is cut to a fraction of ITS OWN length.
+func checkCropOwnLength(c *report.Ctx) {
+	f := fn(c, "L/rapi/model", "(*errorCauseCompactor).cropStackTraces")
+	if f == nil {
+		return
+	}
+	ecT := "L/rapi/model.ErrorCause"
+	var lensIn func(v ssa.Value, depth int, out map[string]bool)
+	lensIn = func(v ssa.Value, depth int, out map[string]bool) {
+		if depth > 10 || v == nil {
+			return
+		}
+		if x, ok := an.LenArg(v); ok {
+			if fr, isF := an.AsField(an.Strip(x, false)); isF && fr.Struct == ecT {
+				out[fr.Field] = true
+			} else {
+				out["?"+an.Path(x)] = true
+			}
+			return
+		}
+		in, ok := v.(ssa.Instruction)
+		if !ok {
+			return
+		}
+		if _, isPhi := v.(*ssa.Phi); isPhi {
+			for _, e := range v.(*ssa.Phi).Edges {
+				lensIn(e, depth+1, out)
+			}
+			return
+		}
+		var rands []*ssa.Value
+		for _, r := range in.Operands(rands) {
+			if *r != nil {
+				lensIn(*r, depth+1, out)
+			}
+		}
+	}
+	n := 0
+	var bad []string
+	pos := fpos(f)
+	an.AllInstrs(f, func(in ssa.Instruction) {
+		sl, ok := in.(*ssa.Slice)
+		if !ok || sl.High == nil {
+			return
+		}
+		fr, isF := an.AsField(an.Strip(sl.X, false))
+		if !isF || fr.Struct != ecT {
+			return
+		}
+		n++
+		got := map[string]bool{}
+		lensIn(sl.High, 0, got)
+		if len(got) != 1 || !got[fr.Field] {
+			bad = append(bad, sprintf("%s cut to a length computed from %v", fr.Field, keysOf(got)))
+			pos = an.InstrPos(in)
+		}
+	})
+	c.Check("R-WIRE", an.FuncName(f)+"/own-length", "Exceptions and Paths are each cut to a fraction of their own length (a length taken from the other list invents empty entries or slices out of range)", len(bad) == 0 && n == 2, pos, n, "slices: %d; %v", n, bad)
+}
+
+// checkCustomerHeadersEncoding: the client-context header is standard base64, both ways.
+func checkCustomerHeadersEncoding(c *report.Ctx) {
+	n := 0
+	var bad []string
+	pos := token.NoPos
+	for _, name := range []string{"(*CustomerHeaders).Load", "(CustomerHeaders).Dump"} {
+		f := c.P.Func(diP, name)
+		if f == nil {
+			f = fn(c, diP, strings.Replace(name, "(CustomerHeaders)", "(*CustomerHeaders)", 1))
+		}
+		if f == nil {
+			continue
+		}
+		an.AllInstrs(f, func(in ssa.Instruction) {
+			call, ok := in.(ssa.CallInstruction)
+			if !ok {
+				return
+			}
+			cal := an.Callee(call)
+			if !strings.HasPrefix(cal, "encoding/base64.") {
+				return
+			}
+			for _, a := range call.Common().Args {
+				if g := an.GlobalOf(an.Strip(a, false)); strings.HasPrefix(g, "encoding/base64.") {
+					n++
+					if g != "encoding/base64.StdEncoding" {
+						bad = append(bad, an.FuncName(f)+": "+g)
+						pos = an.InstrPos(in)
+					}
+				}
+			}
+		})
+	}
+	c.Check("R-CONST", diP+".CustomerHeaders/standard-base64", "the Customer-Headers value (client context, Cognito identity) is encoded and decoded with the standard base64 alphabet, which is what the invoking side sends", len(bad) == 0 && n >= 2, pos, n, "encodings used: %d; not StdEncoding: %v", n, bad)
+}
+
+// checkAgentListing: every non-directory entry of the extensions directory is listed; nothing else decides.
+func checkAgentListing(c *report.Ctx) {
+	f := fn(c, "L/agents", "ListExternalAgentPaths")
+	if f == nil {
+		return
+	}
+	facts := an.NewFacts(f)
+	var isDirCalls []ssa.CallInstruction
+	an.AllInstrs(f, func(in ssa.Instruction) {
+		if call, ok := in.(ssa.CallInstruction); ok && strings.HasSuffix(an.Callee(call), "DirEntry.IsDir") {
+			isDirCalls = append(isDirCalls, call)
+		}
+	})
+	n, ok := 0, len(isDirCalls) == 1
+	pos := fpos(f)
+	var extra []string
+	if ok {
+		before := map[string]bool{}
+		for _, ft := range facts.At(isDirCalls[0].Block()) {
+			before[factsString([]an.Fact{ft})] = true
+		}
+		an.AllInstrs(f, func(in ssa.Instruction) {
+			call, isC := in.(*ssa.Call)
+			if !isC || !an.InLoop(in) {
+				return
+			}
+			if b, isB := call.Call.Value.(*ssa.Builtin); !isB || b.Name() != "append" {
+				return
+			}
+			n++
+			for _, ft := range facts.At(in.Block()) {
+				if before[factsString([]an.Fact{ft})] {
+					continue
+				}
+				if cl, _ := an.CallOf(ft.Cond); cl != nil && cl == isDirCalls[0].(*ssa.Call) && !ft.Val {
+					continue
+				}
+				extra = append(extra, factsString([]an.Fact{ft}))
+				pos = an.InstrPos(in)
+			}
+		})
+	}
+	c.Check("R-GUARD", an.FuncName(f)+"/every-non-directory-entry", "an entry of the extensions directory is listed exactly when it is not a directory: no further condition (name, kind, link) filters entries", ok && n == 1 && len(extra) == 0, pos, n, "IsDir tests: %d; appends in the loop: %d; further conditions on the way to the append: %v", len(isDirCalls), n, extra)
+	// the path check looks at the text of the path only
+	if g := fn(c, "L/agents", "isCanonical"); g != nil {
+		var other []string
+		an.AllInstrs(g, func(in ssa.Instruction) {
+			if call, isC := in.(ssa.CallInstruction); isC {
+				if cal := an.Callee(call); !oneOf(cal, "path/filepath.Abs", "path/filepath.Clean", "path/filepath.IsAbs", "path.Clean", "path.IsAbs") {
+					other = append(other, cal)
+				}
+			}
+		})
+		c.Check("R-NOEFFECT", an.FuncName(g)+"/textual", "whether the extensions directory is acceptable depends on the text of its path alone (absolute and clean), not on what the file system holds there (a directory reached through a symbolic link is still the extensions directory)", len(other) == 0, fpos(g), 1, "calls other than filepath.Abs/Clean/IsAbs: %v", other)
+	}
+}
+
+// checkCountAgentsCountsBoth: the number of extensions counts internal and external ones.
+func checkCountAgentsCountsBoth(c *report.Ctx) {
+	f := fn(c, coreP, "(*registrationServiceImpl).CountAgents")
+	if f == nil {
+		return
+	}
+	seen := map[*ssa.Function]bool{}
+	got := map[string]bool{}
+	var visit func(g *ssa.Function, depth int)
+	visit = func(g *ssa.Function, depth int) {
+		if g == nil || seen[g] || depth > 3 {
+			return
+		}
+		seen[g] = true
+		for _, a := range an.WithAnon(g) {
+			an.AllInstrs(a, func(in ssa.Instruction) {
+				if fa, ok := in.(*ssa.FieldAddr); ok {
+					if fr, k := an.AsField(fa); k && fr.Struct == "L/core.registrationServiceImpl" && oneOf(fr.Field, "externalAgents", "internalAgents") {
+						got[fr.Field] = true
+					}
+				}
+				if call, ok := in.(ssa.CallInstruction); ok {
+					if sc := call.Common().StaticCallee(); sc != nil && sc.Signature.Recv() != nil && an.TypeName(sc.Signature.Recv().Type()) == "L/core.registrationServiceImpl" {
+						visit(sc, depth+1)
+					}
+				}
+			})
+		}
+	}
+	visit(f, 0)
+	c.Check("R-WIRE", an.FuncName(f)+"/counts-internal-and-external", "CountAgents is computed from both the external and the internal extension maps (an invocation waits for internal INVOKE subscribers too; a reset is graceful whenever any extension exists)", got["externalAgents"] && got["internalAgents"], fpos(f), 2, "maps consulted: %v", keysOf(got))
+}
+
+// checkCancelFlowsUnconditional: the first cancel cancels both flows, whatever state the registration service is in.
+func checkCancelFlowsUnconditional(c *report.Ctx) {
+	f := fn(c, coreP, "(*registrationServiceImpl).CancelFlows")
+	if f == nil {
+		return
+	}
+	found := false
+	for _, g := range an.WithAnon(f) {
+		if len(an.Calls(g, func(s string) bool { return strings.HasSuffix(s, "FlowSynchronization.CancelWithError") })) == 0 {
+			continue
+		}
+		found = true
+		for _, flow := range []string{"InitFlowSynchronization", "InvokeFlowSynchronization"} {
+			n, ok, where := beforeEveryReturn(g, isPlainCallTo("L/core."+flow+".CancelWithError"))
+			if where == token.NoPos {
+				where = fpos(g)
+			}
+			c.Check("R-FANOUT", "L/core.registrationServiceImpl.CancelFlows/always-cancels/"+flow, "the one-shot cancel reaches the init flow and the invoke flow on every path (the shot is spent either way: a flow left out can never be cancelled again in this generation)", ok, where, n, "calls: %d, on every path: %v", n, ok)
+		}
+	}
+	if !found {
+		c.Unresolved("ANCHOR", "L/core.registrationServiceImpl.CancelFlows/body", "no function of CancelFlows cancels a flow")
+	}
+}
+
+// checkExitChannelAfterExec: an exit channel is created only for a process that was started.
+func checkExitChannelAfterExec(c *report.Ctx) { checkJustification(c, "exec-then-create-channel") }
+
+// checkAgentAutomataTruthful: the extension state machines (what the status lines of C15 report) are the documented ones.
+func checkAgentAutomataTruthful(c *report.Ctx) {
+	for _, spec := range []fsmSpec{externalFSM(), internalFSM()} {
+		m := extractFSM(c, spec)
+		checkFSM(c, spec, m)
+	}
 }
